@@ -20,11 +20,11 @@ func init() {
 		Level: "fault_enumeration",
 		Rule: "API-level differential against crypto/ed25519: NewKeyFromSeed, Sign, PrivateKey.Sign (bytes equal) for seeded seeds and messages of length 0..300 and 1 MiB; Verify verdicts on the cross product A in {honest, the 8 small-order points in canonical and non-canonical encodings, y not on the curve, y = p-1, p, p+1, 2^255-1, x = 0 with the sign bit} x R likewise x S in {honest, S+kL, L-1, L, 0, each of the top three bits}, every single-bit flip of an honest (A, msg, sig) triple, 63/65-byte signatures, forged small-order signatures (S = 0, R = -[k]A found by search); histories of 12..22 consecutive Verify calls over related inputs (a key and its negation with signatures valid under each, an invalid key encoding twice in a row signed with the previous key's scalar, one-bit neighbours, small-order keys, exact repeats) with key, message and signature in buffers refilled in place; valid signatures in special relations (R = A, -A, B, identity, 2A; A = B; message = key, = R, = protocol strings such as the RFC 8032 dom2 prefix); " +
 			"GenerateKey under the same scripted entropy reader on both sides (fault position 0..33 x 4 chunkings, exhaustive): same outputs, same error, same bytes consumed. " +
-			"Operation-level reference model through the verif-tagged hook: scalar reduction of 64 and 32 bytes, clamping, canonical check, MultiplyAdd/Add/Sub/Neg/Mul, the fork's own ModInverse, point decoding (accept set and value), ScalarMult, ScalarBaseMult, VarTimeDoubleScalarBaseMult, point Add/Sub/Neg, each compared with a math/big twisted-Edwards model on limb-boundary operand patterns (21-bit and all 864 combinations of 64-bit limbs in {0, 1, 2^64-1, 2^63, 2^32-1, 2^63+1}), L-1, L, L+1, 2^252+-1, small-order and seeded points. " +
+			"Operation-level reference model through the verif-tagged hook: scalar reduction of 64 and 32 bytes, clamping, canonical check, MultiplyAdd/Add/Sub/Neg/Mul, the fork's own ModInverse, point decoding (accept set and value), ScalarMult, ScalarBaseMult, VarTimeDoubleScalarBaseMult, point Add/Sub/Neg, each compared with a math/big twisted-Edwards model on operands solved for a chosen result (64-byte inputs q*L + r with r at the top of [2^252, L) and q up to the maximum; inverses that are small or word-structured), on scalars made of repeated nibbles and of 32-bit words from {77777777, 77777778, 88888888, ffffffff, ...}, on limb-boundary operand patterns (21-bit and all 864 combinations of 64-bit limbs in {0, 1, 2^64-1, 2^63, 2^32-1, 2^63+1}), L-1, L, L+1, 2^252+-1, small-order and seeded points. " +
 			"Field level (hooks VerifField*): Add/Subtract/Negate/Multiply/Square/Invert/Absolute/Pow22523/IsNegative/Equal/Mult32/Select/Swap/SqrtRatio and nine expressions with non-canonical intermediates against math/big modulo 2^255-19 on operands whose five 51-bit limbs are each one of {0, 1, 19, 2^50, 2^51-19, 2^51-2, 2^51-1} (every 7th of the 16807 patterns quick, all thorough), encodings p..p+18 with and without bit 255, seeded pairs. " +
 			"distinct_nontrivial = distinct (case class, operand pattern) keys",
 		Floors: []string{"keys_equal_std", "signatures_equal_std", "verify_agree_accept", "verify_agree_reject", "small_order_inputs", "noncanonical_inputs", "s_plus_L_inputs", "forged_small_order_accepted_by_both", "bitflips", "generatekey_same_as_std",
-			"cold_start_verify_agrees", "identity_key_high_s", "hook_scalar_ops", "hook_point_decode", "hook_scalar_mult", "hook_modinverse", "model_agrees_with_std", "hook_limb_pattern_scalars", "hook_field_limb_patterns", "hook_field_noncanonical", "hook_field_seeded", "history_verify_agree_accept", "history_verify_agree_reject", "special_relation_signatures", "special_string_messages"},
+			"cold_start_verify_agrees", "identity_key_high_s", "hook_scalar_ops", "hook_point_decode", "hook_scalar_mult", "hook_modinverse", "model_agrees_with_std", "hook_limb_pattern_scalars", "hook_reduce_chosen_residue", "hook_modinverse_chosen_result", "hook_word_structured_scalars", "hook_field_limb_patterns", "hook_field_noncanonical", "hook_field_seeded", "history_verify_agree_accept", "history_verify_agree_reject", "special_relation_signatures", "special_string_messages"},
 		Assumptions: []string{"crypto/ed25519 of the Go toolchain that builds the harness is the reference", "the math/big model is cross-checked against crypto/ed25519 in the same run (class model_agrees_with_std)"},
 		SelfCheck:   []string{"model_disagrees_with_std"},
 		Run:         runC14,
@@ -543,6 +543,156 @@ func (m *c14) hookOps() {
 			c.Class("hook_modinverse")
 		}
 		c.Distinctf("hook:muladd:%d", i)
+	}
+	// ---- operands SOLVED FOR a chosen result or intermediate value
+	// (a) 64-byte reductions x = q*L + r with the residue r chosen (0, 1, the top of the range [2^252, L), seeded there) and
+	//     the quotient q chosen (0, 1, the largest that keeps x below 2^512, seeded large ones)
+	if c.Next() {
+		r := c.CaseRng()
+		L := ref.EdL
+		two252 := new(big.Int).Lsh(big.NewInt(1), 252)
+		qmax := new(big.Int).Div(new(big.Int).Sub(new(big.Int).Lsh(big.NewInt(1), 512), big.NewInt(1)), L)
+		var residues, quotients []*big.Int
+		for _, v := range []int64{0, 1, 2} {
+			residues = append(residues, big.NewInt(v), new(big.Int).Sub(L, big.NewInt(v+1)), new(big.Int).Add(two252, big.NewInt(v)), new(big.Int).Sub(two252, big.NewInt(v+1)))
+			quotients = append(quotients, big.NewInt(v), new(big.Int).Sub(qmax, big.NewInt(v)))
+		}
+		span := new(big.Int).Sub(L, two252)
+		for i := 0; i < c.Pick(40, 4000); i++ {
+			x := new(big.Int).SetBytes(r.Bytes(20))
+			residues = append(residues, x.Mod(x, span).Add(x, two252))
+			q := new(big.Int).SetBytes(r.Bytes(33))
+			quotients = append(quotients, q.Mod(q, qmax))
+		}
+		for _, rr := range residues {
+			for qi, q := range quotients {
+				if qi > 8 && (qi+int(rr.Uint64()))%7 != 0 {
+					continue
+				}
+				x := new(big.Int).Add(new(big.Int).Mul(q, L), rr)
+				if x.BitLen() > 512 {
+					continue
+				}
+				in := make([]byte, 64)
+				for i, b := range x.Bytes() {
+					in[len(x.Bytes())-1-i] = b
+				}
+				c.Eval(1)
+				var got []byte
+				pan, pv, _ := core.Guard(func() { got = ed25519.VerifScalarReduce64(in) })
+				if pan || !bytes.Equal(got, ref.EdIntLE(rr)) {
+					c.Violation("hook:reduce64:chosen-residue", "SetUniformBytes(q*L + r) is not r "+pv, map[string]any{"input": core.Hex(in), "residue": rr.Text(16), "quotient": q.Text(16), "got": core.Hex(got)})
+					break
+				}
+				// the reduced scalar is then used: multiplication must not panic and must agree with the model
+				pan, pv, _ = core.Guard(func() {
+					if bm := ed25519.VerifScalarBaseMult(got); !bytes.Equal(bm, ref.EdEncode(ref.EdMul(rr, ref.EdB))) {
+						c.Violation("hook:reduce64:chosen-residue:use", "a scalar reduced from q*L + r multiplies the base point to another point than [r]B", map[string]any{"input": core.Hex(in)})
+					}
+				})
+				if pan {
+					c.Violation("hook:reduce64:chosen-residue:use-panic", "using a scalar reduced from q*L + r panicked: "+pv, map[string]any{"input": core.Hex(in)})
+					break
+				}
+				c.Class("hook_reduce_chosen_residue")
+			}
+		}
+	}
+	// (b) inverses chosen to be SMALL or word-structured: x = y^-1 for y = 1, 2, 2^32-1, 2^64, 2^200+1, ..., so that the
+	//     result the implementation has to produce has its upper words zero
+	if c.Next() {
+		r := c.CaseRng()
+		var ys []*big.Int
+		for _, k := range []uint{0, 1, 8, 31, 32, 33, 63, 64, 65, 96, 127, 128, 160, 192, 200, 223, 224, 225, 250} {
+			y := new(big.Int).Lsh(big.NewInt(1), k)
+			ys = append(ys, y, new(big.Int).Add(y, big.NewInt(1)), new(big.Int).Sub(y, big.NewInt(1)))
+		}
+		for i := 0; i < 40; i++ {
+			ys = append(ys, new(big.Int).SetBytes(r.Bytes(1+r.IntN(28))))
+		}
+		for _, y := range ys {
+			if y.Sign() <= 0 {
+				continue
+			}
+			x := new(big.Int).ModInverse(y, ref.EdL)
+			c.Eval(1)
+			var inv []byte
+			pan, pv, _ := core.Guard(func() { inv = ed25519.VerifScalarModInverse(ref.EdIntLE(x)) })
+			if pan || !bytes.Equal(inv, ref.EdIntLE(y)) {
+				c.Violation("hook:ModInverse:chosen-result", "ModInverse(y^-1) is not y for a small or word-structured y "+pv, map[string]any{"x": core.Hex(ref.EdIntLE(x)), "want": core.Hex(ref.EdIntLE(y)), "got": core.Hex(inv)})
+				break
+			}
+			c.Class("hook_modinverse_chosen_result")
+		}
+	}
+	// (c) scalars made of repeated nibbles and of 32-bit words from {77777777, 77777778, 88888888, 88888887, ffffffff, 0,
+	//     80000000, 7fffffff}: signed-digit recodings recentre every digit around 8 and carry into the next word
+	{
+		words := []uint32{0x77777777, 0x77777778, 0x88888888, 0x88888887, 0xffffffff, 0, 0x80000000, 0x7fffffff, 0x78888888, 0x87777777}
+		var sc [][]byte
+		mk := func(w [8]uint32) []byte {
+			b := make([]byte, 32)
+			for i, v := range w {
+				b[4*i], b[4*i+1], b[4*i+2], b[4*i+3] = byte(v), byte(v>>8), byte(v>>16), byte(v>>24)
+			}
+			b[31] &= 0x0f // below 2^252: canonical
+			return b
+		}
+		for _, a := range words {
+			var w [8]uint32
+			for i := range w {
+				w[i] = a
+			}
+			sc = append(sc, mk(w))
+			for pos := 0; pos < 8; pos++ {
+				for _, bv := range words {
+					w2 := w
+					w2[pos] = bv
+					sc = append(sc, mk(w2))
+				}
+			}
+		}
+		for nib := 0; nib < 16; nib++ {
+			sc = append(sc, mk([8]uint32{uint32(nib) * 0x11111111, uint32(nib) * 0x11111111, uint32(nib) * 0x11111111, uint32(nib) * 0x11111111, uint32(nib) * 0x11111111, uint32(nib) * 0x11111111, uint32(nib) * 0x11111111, uint32(nib) * 0x11111111}))
+		}
+		for lo := 0; lo < len(sc); lo += 16 {
+			if !c.Next() {
+				continue
+			}
+			r := c.CaseRng()
+			var P *ref.EdPoint
+			var penc []byte
+			for {
+				penc = r.Bytes(32)
+				var ok bool
+				if P, ok = ref.EdDecode(penc); ok {
+					break
+				}
+			}
+			for _, x := range sc[lo:min(lo+16, len(sc))] {
+				xi := new(big.Int).Mod(ref.EdScalarInt(x), ref.EdL)
+				c.Eval(2)
+				d := map[string]any{"x": core.Hex(x), "point": core.Hex(penc)}
+				pan, pv, _ := core.Guard(func() {
+					if bm := ed25519.VerifScalarBaseMult(x); !bytes.Equal(bm, ref.EdEncode(ref.EdMul(xi, ref.EdB))) {
+						c.Violation("hook:ScalarBaseMult", "ScalarBaseMult differs from the model on a word/nibble-structured scalar", d)
+						return
+					}
+					if sm, err := ed25519.VerifScalarMult(x, penc); err != nil || !bytes.Equal(sm, ref.EdEncode(ref.EdMul(xi, P))) {
+						c.Violation("hook:ScalarMult", "ScalarMult differs from the model on a word/nibble-structured scalar", d)
+						return
+					}
+					if dm, err := ed25519.VerifDoubleScalarBaseMult(x, penc, x); err != nil || !bytes.Equal(dm, ref.EdEncode(ref.EdAdd(ref.EdMul(xi, P), ref.EdMul(xi, ref.EdB)))) {
+						c.Violation("hook:VarTimeDoubleScalarBaseMult", "VarTimeDoubleScalarBaseMult differs from the model on a word/nibble-structured scalar", d)
+						return
+					}
+					c.Class("hook_word_structured_scalars")
+				})
+				if pan {
+					c.Violation("hook:panic", "panic: "+pv, d)
+				}
+			}
+		}
 	}
 	// point decoding: accept set and value
 	nDec := c.Pick(300, 100000)
